@@ -15,6 +15,8 @@ using namespace sim;
 using namespace tsgsim;
 using namespace TasGrid;
 
+extern "C" int tsgRead(void *grid, const char *filename); // C interface: reports failure by its return value, no exception may escape it
+
 namespace {
 
 struct Clause {
@@ -159,6 +161,17 @@ std::vector<Clause> buildClauses() {
     add("read/unknown-type-ascii", "runtime_error", true, any, [](TasmanianSparseGrid &g, Rng &) { std::string s = validFile(false); size_t p = s.find("global"); if (p != std::string::npos) s.replace(p, 6, "glibal"); putFile("/simfs/bad.tsg", s); g.read("/simfs/bad.tsg"); });
     add("read/unknown-type-binary", "runtime_error", true, any, [](TasmanianSparseGrid &g, Rng &) { std::string s = validFile(true); s[4] = 'q'; putFile("/simfs/bad.tsg", s); g.read("/simfs/bad.tsg"); });
     add("read/future-version-ascii", "runtime_error", true, any, [](TasmanianSparseGrid &g, Rng &) { std::string s = validFile(false); size_t p = s.find("SG ") + 3, e = s.find_first_of(" \n", p); s.replace(p, e - p, "99.1"); putFile("/simfs/bad.tsg", s); g.read("/simfs/bad.tsg"); });
+    // the same unreadable / non-Tasmanian files through the C interface: the wrapper turns the failure into return value 0
+    add("read-c-interface/bad-file", "runtime_error", true, any, [](TasmanianSparseGrid &g, Rng &r) {
+        const char *name = "/simfs/does-not-exist.tsg";
+        int how = (int)r.below(4);
+        if (how == 1) { putFile("/simfs/empty.tsg", ""); name = "/simfs/empty.tsg"; }
+        else if (how == 2) { std::string s = validFile(false); s[0] = 'X'; putFile("/simfs/bad.tsg", s); name = "/simfs/bad.tsg"; }
+        else if (how == 3) { std::string s = validFile(true); s[4] = 'q'; putFile("/simfs/bad.tsg", s); name = "/simfs/bad.tsg"; }
+        int ok = 1;
+        try { ok = tsgRead((void *)&g, name); } catch (std::exception &e) { throw std::logic_error(std::string("an exception escaped the C interface tsgRead(): ") + e.what()); }
+        if (ok == 0) throw std::runtime_error("tsgRead() returned 0"); // the documented way the wrapper reports the error
+    });
     // a Tasmanian header and grid block followed by a damaged trailing section (transforms / limits / construction flag / end marker)
     add("read/damaged-trailer-ascii", "runtime_error", true, any, [](TasmanianSparseGrid &g, Rng &r) {
         TasmanianSparseGrid t; t.makeGlobalGrid(3, 1, 2, type_level, rule_clenshawcurtis); double a[3] = {-1, 0, 1}, b[3] = {2, 3, 4}; if (r.chance(0.6)) t.setDomainTransform(a, b);
